@@ -12,12 +12,15 @@ import (
 type Opts struct {
 	AllowInvalidUTF8    bool
 	AllowDuplicateNames bool
-	MaxDepth            int // 0 means 10000
+	MaxDepth            int // 0 means 10000; negative means no container may be opened
 }
 
 func (o Opts) maxDepth() int {
 	if o.MaxDepth == 0 {
 		return 10000
+	}
+	if o.MaxDepth < 0 {
+		return 0 // no nesting allowed at all
 	}
 	return o.MaxDepth
 }
